@@ -21,7 +21,8 @@ from . import abstraction as ab  # noqa: E402
 
 assert os.path.realpath(penman.__file__).startswith(os.path.realpath(os.environ.get('PENMAN_SRC', '/repo'))), penman.__file__
 
-CALL_TIMEOUT = 5.0
+CALL_TIMEOUT = 5.0        # seconds of CPU time of this process (a hanging call burns CPU; a descheduled process does not)
+WALL_BACKSTOP = 120.0     # wall-clock backstop
 
 
 class Hang(Exception):
@@ -32,21 +33,24 @@ def _alarm(signum, frame):
     raise Hang()
 
 
+signal.signal(signal.SIGVTALRM, _alarm)
 signal.signal(signal.SIGALRM, _alarm)
 
 
 def guarded(f, *a, **k):
-    """Call f; returns (ok, value-or-exception)."""
-    signal.setitimer(signal.ITIMER_REAL, CALL_TIMEOUT)
+    """Call f; returns (ok, value-or-exception).  The time limit is on CPU time, so a loaded machine cannot fake a hang."""
+    signal.setitimer(signal.ITIMER_VIRTUAL, CALL_TIMEOUT)
+    signal.setitimer(signal.ITIMER_REAL, WALL_BACKSTOP)
     try:
         return True, f(*a, **k)
     except Hang:
-        return False, Hang('no return within %.0fs' % CALL_TIMEOUT)
+        return False, Hang('no return within %.0fs of CPU time' % CALL_TIMEOUT)
     except RecursionError as e:
         return False, e
     except Exception as e:  # noqa
         return False, e
     finally:
+        signal.setitimer(signal.ITIMER_VIRTUAL, 0)
         signal.setitimer(signal.ITIMER_REAL, 0)
 
 
@@ -557,7 +561,7 @@ def tr_ghist(acts):
     for a in acts:
         res = 'ok'
         try:
-            signal.setitimer(signal.ITIMER_REAL, CALL_TIMEOUT)
+            signal.setitimer(signal.ITIMER_VIRTUAL, CALL_TIMEOUT)
             op = a['op']
             if op == 'new':
                 triples = [(_u(s), r, _u(t)) for s, r, t in a['tr']]
@@ -583,7 +587,7 @@ def tr_ghist(acts):
         except Exception as e:  # noqa
             res = 'EXC:' + excname(e)
         finally:
-            signal.setitimer(signal.ITIMER_REAL, 0)
+            signal.setitimer(signal.ITIMER_VIRTUAL, 0)
         ok, st = guarded(lambda: [_gstate(g) for g in pool])
         steps.append({'res': res if ok else 'EXC-in-query:' + excname(st), 'pool': st if ok else []})
     return {'kind': 'ghist', 'acts': acts, 'steps': steps}
@@ -739,7 +743,7 @@ def run_tool(args, inputs, stdin=False, subproc=False):
         sys.argv = ['penman'] + args + files
         sys.stdin = io.StringIO(inputs[0]) if stdin else io.StringIO('')
         sys.stdout, sys.stderr = out, err
-        signal.setitimer(signal.ITIMER_REAL, 20)
+        signal.setitimer(signal.ITIMER_VIRTUAL, 20)
         try:
             pm.main()
         except SystemExit as e:
@@ -749,7 +753,7 @@ def run_tool(args, inputs, stdin=False, subproc=False):
         except Exception as e:  # noqa
             res['exc'] = excname(e)
     finally:
-        signal.setitimer(signal.ITIMER_REAL, 0)
+        signal.setitimer(signal.ITIMER_VIRTUAL, 0)
         sys.argv, sys.stdin, sys.stdout, sys.stderr = old
     res['out'] = out.getvalue()
     return res
@@ -765,7 +769,7 @@ def run_pipeline(plan, inputs):
     exitcode = 0
     res = {'out': '', 'exit': 0, 'exc': ''}
     try:
-        signal.setitimer(signal.ITIMER_REAL, 20)
+        signal.setitimer(signal.ITIMER_VIRTUAL, 20)
         for text in inputs:
             first = True
             for t in penman.iterparse(text.splitlines(True) if False else io.StringIO(text)):
@@ -819,7 +823,7 @@ def run_pipeline(plan, inputs):
     except Exception as e:  # noqa
         res['exc'] = excname(e)
     finally:
-        signal.setitimer(signal.ITIMER_REAL, 0)
+        signal.setitimer(signal.ITIMER_VIRTUAL, 0)
     res['out'] = ''.join(out)
     res['exit'] = exitcode
     return res
